@@ -48,6 +48,10 @@ CHECKS = {
          "History leg: state = registry content of one recomposer (private and alt.DefaultRecomposer), alphabet = recompose into each of 7 target type classes (same-named types of two packages, anonymous structs, embedding/field-of types, custom function); BFS over all orders up to length 3/4 with deduplication; every step's output must equal the output on a fresh recomposer. Value leg: Recompose(Decompose(v)), Unmarshal(Marshal(v)), sen round trip for every enumerated type and value.",
          "Trusted: reflect.DeepEqual modulo nil/empty; registry snapshot via reflection; process-wide state also contaminates the fresh run (stated).",
          "DESIGN.md §3 C16", "core"),
+ "C17": (EX, "bounded-exhaustive enumeration of documents x target sets x entry points x chunkings against parse + pathref (outermost, document order)",
+         "Every document of the corpus (JSON and SEN text, members in ascending and descending key order) x every single target and ordered pairs of targets over the shared path alphabet (child, index, wildcard, union, slice, descent, trailing filter) x oj.Match / MatchString / MatchLoad (whole, 1-byte, every 2-split) and the sen variants: the callback sequence (copied path, value) must equal the outermost locations pathref selects, in document order, identical for every chunking.",
+         "Trusted: pathref + scriptref; the harness's own ordered document model; failing pairs only reported when each target alone passes.",
+         "DESIGN.md §3 C17", "core"),
  "C18": (EX, "bounded-exhaustive enumeration of trees x conversions, plus every (copy operation, node position, mutation) aliasing experiment",
          "Every tree up to the node bound over 30 leaf kinds through Generify/Simplify, GenAlter/Alter, Dup, Decompose, writer equality of gen and simple forms, gen.Parser vs Generify(oj.Parse); for every copying operation every node of copy and original is mutated in five ways and the other side compared with its snapshot.",
          "Trusted: kind-exact tree codec; in-place variants only required to preserve the value.",
